@@ -26,6 +26,10 @@ def norm_atom(a):
         x, y = a[1], a[2]
         if repr(y) < repr(x):
             return (a[0], y, x)
+    elif a[0] == 'Rd':
+        x, y = a[2], a[3]
+        if repr(y) < repr(x):
+            return (a[0], a[1], y, x)
     return a
 
 
@@ -36,6 +40,8 @@ def Atom(a):
         return FALSE
     a = norm_atom(a)
     if a[0] in ('eq', 'R', 'ceq') and a[1] == a[2]:
+        return TRUE
+    if a[0] == 'Rd' and a[2] == a[3]:
         return TRUE
     return ('atom', a)
 
@@ -51,6 +57,12 @@ def Eq(x, y):
 
 def Rel(x, y):
     return Atom(('R', x, y))
+
+
+def RelD(consumer, x, y):
+    """the comparison, asked on behalf of `consumer`, judges x and y unaltered.  consumer '!!!' = the whole output (what the
+    engine asks for a job's own record); R_'!!!'(x,y) implies R_c(x,y) for every consumer c (a consumer looks at a part)"""
+    return Atom(('Rd', consumer, x, y))
 
 
 def Not(f):
@@ -191,6 +203,12 @@ class Z3Ctx:
         self.classes = None    # concrete replays: string -> class name (comparison relation given by a table)
         self.clsconsts = {}
         self.by_eval = 0       # obligations decided by evaluating the formula under the path-condition literals
+        # second-solver cross-check: every xcheck-th obligation query is dumped as SMT-LIB2 and re-decided by cvc5;
+        # a disagreement or an error line makes the run inconclusive
+        import os as _os
+        self.xcheck = int(_os.environ.get('MIRSYM_XCHECK', '0') or 0)
+        self.n_oblig_queries = 0
+        self.xchecked = 0
 
     # ---- terms and atoms
     def term(self, t):
@@ -252,6 +270,15 @@ class Z3Ctx:
         self.terms[t] = r
         return r
 
+    def part_fn(self, d):
+        """what consumer d looks at: an uninterpreted function of the whole-output class"""
+        key = ('G', d)
+        f = self.funcs.get(key)
+        if f is None:
+            f = z3.Function('G%d_%s' % (len(self.funcs), ''.join(c for c in d if c.isalnum())[:20]), self.Cls, self.Cls)
+            self.funcs[key] = f
+        return f
+
     def formula(self, atom):
         if atom is True:
             return z3.BoolVal(True)
@@ -264,6 +291,16 @@ class Z3Ctx:
             return self.cls(self.term(atom[1])) == self.cls(self.term(atom[2]))
         if k == 'ceq':
             return self.cterm(atom[1]) == self.cterm(atom[2])
+        if k == 'Rd':
+            d, a, b = atom[1], atom[2], atom[3]
+            if self.classes is not None and a[0] == 'lit' and b[0] == 'lit':
+                ca = self.classes.get(d + '\x01' + a[1], self.classes.get(a[1], a[1]))
+                cb = self.classes.get(d + '\x01' + b[1], self.classes.get(b[1], b[1]))
+                return z3.BoolVal(ca == cb)
+            if d == '!!!':
+                return self.cls(self.term(a)) == self.cls(self.term(b))
+            g = self.part_fn(d)
+            return g(self.cls(self.term(a))) == g(self.cls(self.term(b)))
         if k in ('p', 'pe', 'ps', 'present', 'present2', 'b', 'present3', 'kept'):
             return z3.Bool('%s_%s' % (k, '_'.join(str(x) for x in atom[1:])))
         raise rt.Unsupported('atom %r' % (atom,))
@@ -350,6 +387,10 @@ class Z3Ctx:
             raise rt.Unsupported('z3 returned unknown')
         r = (res == z3.sat)
         self.stats.add(cls, 'sat' if r else 'unsat', dt)
+        if self.xcheck:
+            self.n_oblig_queries += 1
+            if self.n_oblig_queries % self.xcheck == 0:
+                self.cross_check(list(pc) + [(atom, val)], None, r)
         self.feas_cache[key] = r
         return r
 
@@ -365,11 +406,27 @@ class Z3Ctx:
             if res == z3.unknown:
                 raise rt.Unsupported('z3 returned unknown')
             self.stats.add(cls, 'sat' if res == z3.sat else 'unsat', dt)
+            if self.xcheck:
+                self.n_oblig_queries += 1
+                if self.n_oblig_queries % self.xcheck == 0:
+                    self.cross_check(pc, f, res == z3.sat)
             if res == z3.sat:
                 return self.s.model()
             return None
         finally:
             self.s.pop()
+
+    def cross_check(self, pc, f, z3_sat):
+        import subprocess
+        txt = '(set-logic ALL)\n' + self.smtlib(pc, f)
+        p = subprocess.run(['cvc5', '--lang', 'smt2'], input=txt, stdout=subprocess.PIPE, stderr=subprocess.PIPE, text=True, timeout=120)
+        out = p.stdout.strip().split('\n')[-1] if p.stdout.strip() else ''
+        if '(error' in p.stdout or out not in ('sat', 'unsat'):
+            raise rt.Unsupported('cvc5 cross-check inconclusive: %s %s' % (p.stdout[-200:], p.stderr[-200:]))
+        if (out == 'sat') != z3_sat:
+            raise rt.Unsupported('SOLVER DISAGREEMENT: z3 says %s, cvc5 says %s' % ('sat' if z3_sat else 'unsat', out))
+        self.xchecked += 1
+        self.stats.add('cvc5-crosscheck', out, 0.0)
 
     def valid(self, pc, f, cls='obligation'):
         """does pc imply f?  returns (True, None) or (False, model)"""
